@@ -74,6 +74,17 @@ Inv_C12 == Len(hist) > 0 =>
    CASE LastOp.k = "remap_uri" -> P_C12_uri(convs[LastOp.i], LastOp.m, Res)
      [] LastOp.k = "rewire" -> P_C12_rewire(convs[LastOp.i], LastOp.m, Res)
      [] OTHER -> TRUE
+\* REFINEMENT BRIDGE to the proved relation (RepointRel.tla, tlaps/C12_Repoint.tla): on a strict input and a mapping that is
+\* not ambiguous for it, Derive!RemapURI / Derive!Rewire give exactly the per-record update about which TLAPS proves C12
+\* without any bound
+RR == INSTANCE RepointRel
+P4(r) == [p |-> r.p, u |-> r.u, ps |-> r.ps, us |-> r.us]
+MSet(m) == {<<m[k][1], m[k][2]>> : k \in 1..Len(m)}
+Prop_BridgeRepoint ==
+  [][ (Len(hist') > Len(hist) /\ hist'[Len(hist')].k \in {"remap_uri", "rewire"} /\ last' = Ok) =>
+        LET op == hist'[Len(hist')]  c == convs[op.i]  d == convs'[Len(convs')]  isuri == op.k = "remap_uri" IN
+        (OneOwner(c) /\ ~Ambiguous(c, op.m, isuri)) =>
+           {P4(r) : r \in RecSet(d)} = {RR!UpdR(KnownU(c), MSet(op.m), isuri, P4(r)) : r \in RecSet(c)} ]_vars
 Inv_Struct == \A c \in Live : P_C05_inv(c)
 \* P_C10 is the action property of World.tla
 =============================================================================
